@@ -143,6 +143,9 @@ func runCheck(cmd, prop, tier, repo, root, only string, keep, verbose, writeExpe
 	if tier == "thorough" {
 		timeout *= 6
 	}
+	if hb, err := os.ReadFile(filepath.Join(root, "expected", prop+".hints")); err == nil {
+		json.Unmarshal(hb, &solverHints)
+	}
 	specs, err := loadAllSpecs(repo, root)
 	if err != nil {
 		fmt.Fprintln(os.Stderr, "BROKEN: contracts:", err)
@@ -229,7 +232,30 @@ func runCheck(cmd, prop, tier, repo, root, only string, keep, verbose, writeExpe
 			sem <- struct{}{}
 			defer func() { <-sem }()
 			q := buildQuery(o, true, false)
-			best, allr := discharge(q, smtDir, o.Name, timeout, tier == "thorough")
+			// stage 1: a third of the budget on the whole query; stage 2: case split on a branch
+			// condition; stage 3: the full budget
+			var best SolverResult
+			var allr []SolverResult
+			if len(o.Ctx.qaxioms) > 0 && tier != "thorough" {
+				// stage 0: without the quantified spec-function axioms (fewer assumptions: still a proof)
+				o0 := *o
+				o0.NoQAxioms = true
+				if r0 := quickSolve(buildQuery(&o0, true, false), smtDir, o.Name+"-ground", 3); r0.Result == "unsat" {
+					r0.Solver += "(ground)"
+					best, allr = r0, []SolverResult{r0}
+				}
+			}
+			if best.Result != "unsat" {
+				best, allr = discharge(q, smtDir, o.Name, max(3, timeout/3), tier == "thorough")
+			}
+			if best.Result != "unsat" && best.Result != "sat" {
+				if r, ok := splitDischarge(o, smtDir, max(3, timeout/2)); ok {
+					best = r
+					allr = append(allr, r)
+				} else {
+					best, allr = discharge(q, smtDir, o.Name, timeout, tier == "thorough")
+				}
+			}
 			rep := &OblReport{Name: o.Name, Kind: o.Kind, Result: best.Result, Solver: best.Solver, Ms: best.Ms, Pos: o.Pos, Clause: o.Src, All: allr, obl: o, QueryKB: len(q) / 1024}
 			if tier == "thorough" {
 				// disagreement between solvers is a failure of the machinery, reported as undischarged
@@ -412,6 +438,16 @@ func runCheck(cmd, prop, tier, repo, root, only string, keep, verbose, writeExpe
 		fmt.Printf("VIOLATION property=%s replay=%s no-failing-input-found\n", prop, path)
 	}
 
+	if os.Getenv("VERIF_WRITE_HINTS") != "" && only == "" {
+		hints := map[string]string{}
+		for _, rep := range reports {
+			if rep.Result == "unsat" && !strings.Contains(rep.Solver, "+") && (rep.Solver != "z3-new" || rep.Ms > 1500) {
+				hints[rep.Name] = rep.Solver
+			}
+		}
+		hb, _ := json.MarshalIndent(hints, "", " ")
+		os.WriteFile(filepath.Join(root, "expected", prop+".hints"), hb, 0o644)
+	}
 	// evidence
 	writeEvidence(root, prop, tier, &cfg, results, reports, vacs, violations, discharged, len(knownSeen), time.Since(t0), tLoad, tGen, solverMs, specs)
 	if verbose {
